@@ -105,7 +105,7 @@ def random_instance(rng, n, p_edge=0.35, weights=(0.2, 0.35, 0.45)):
 
 
 def chain_family(max_nodes=7):
-    """Shapes built around one dependency chain c1 -> c2 -> ... -> cL (L = 2..4; inner links Ephemeral or Output, the last
+    """Shapes built around one dependency chain c1 -> c2 -> ... -> cL (L = 2..5; inner links Ephemeral or Output, the last
     one Output or Always), where every link may additionally have
        a side consumer (an Output job), the side consumer optionally with a trigger of its own,
        or a trigger feeding the link itself (an extra upstream that is executed: Always, or an Output whose result may be missing).
@@ -114,7 +114,7 @@ def chain_family(max_nodes=7):
     jobs further down, cleanup with several consumers.  Deterministic enumeration; yields (nodes, edges)."""
     out = []
     side_opts = ['-', 's', 'st', 't']
-    for L in (2, 3, 4):
+    for L in (2, 3, 4, 5):
         for inner in itertools.product(['Ephemeral', 'Output'], repeat=L - 1):
             for last in ('Output', 'Always'):
                 kinds = list(inner) + [last]
